@@ -40,6 +40,8 @@ def _squared_norm(d, t):
 
 def run(ctx, col, tier):
     repo = ctx.repo
+    from ..rules import stateless as _stateless_memo
+    _stateless_memo.run_memo(ctx, col)
     col.rule("R-PURE", "both operations work on copies: no store through an input alias, result fresh", floor=2)
     col.rule("R-REROOT", "re-rooting: the chain new root -> old root is collected by following "
              "parents; only pid and type are stored; the new root gets -1; every other chain node "
